@@ -1290,6 +1290,9 @@ func instanceSelector(c *web.C, h http.Handler) http.Handler {
 				BadRequest(w, r, "Cannot do %s on endpoint %q of locked node %s", r.Method, c.URLParams["keyword"], uuid)
 				return
 			}
+			if data.IsMutationRequest(r.Method, c.URLParams["keyword"]) {
+				dvid.VerifPoint("server.mutationAdmitted", uint64(v))
+			}
 		} else {
 			// Map everything to root version.
 			v, err = datastore.GetRepoRootVersion(v)
